@@ -57,6 +57,7 @@ func checkC03(w *World, c *Check, tier string) {
 	checkRegistryFresh(w, c, "C03.fresh")
 	c.floor("C03.invent", 5)
 	checkGobNothingInvented(w, c, t, "C03.invent")
+	checkGobNoDelete(w, c, "C03.RW")
 	checkFlagDiscipline(w, c, "C03.flag", nil)
 	checkGobObjectRecognition(w, c)
 	for _, s := range w.TaggedStructs() {
@@ -586,4 +587,26 @@ func checkGobNothingInvented(w *World, c *Check, t *tables, rule string) {
 		}
 	}
 	c.stat("gob_reader_field_stores", n)
+}
+
+// checkGobNoDelete (C03.RW:no-delete): the gob writers only ADD entries to the property map. An entry removed again
+// after it was written ("updated equals published, no need to store it twice") is a property that is not stored, and
+// nothing on the reading side puts it back.
+func checkGobNoDelete(w *World, c *Check, rule string) {
+	n := 0
+	for _, f := range w.Funcs {
+		k := 0
+		for _, call := range callsIn(f) {
+			bi, ok := call.Common().Value.(*ssa.Builtin)
+			if !ok || bi.Name() != "delete" || len(call.Common().Args) < 1 || !isGobMap(call.Common().Args[0].Type()) {
+				continue
+			}
+			n++
+			k++
+			c.bad(rule, fmt.Sprintf("no-delete:%s#%d", funcName(f), k), w.InstrPos(call), fmt.Sprintf("%s deletes an entry from the gob property map: the property it held is not stored, and a value written with it reads back without it", funcName(f)))
+		}
+	}
+	if n == 0 {
+		c.ok(rule, "no-delete", "-", "no function removes an entry from a gob property map")
+	}
 }
